@@ -466,6 +466,12 @@ def run(ctx):
                 x = noise + x; x[0] = x[0] * 1e-12; x[-1] = x[-1] * 1e-13
         else:
             x = noise * 10.0 ** int(rng.choice([-12, -10, -9, -8, -7, -6, -5, -4, -3, -2, -1, 1, 2, 3, 4, 5, 6, 7, 9]))      # every clause is scale free
+        if it % 6 == 5 and N >= 4:
+            # the LARGEST admissible order of the covariance method (N = 2p: a square system), with the sample that ends the first row
+            # of the data matrix vanishing exactly, nearly, or not at all
+            N = N - (N % 2); p = N // 2; x = x[:N].copy(); ctx.count('search/square-system')
+            if len(x) == N and p >= 1:
+                x[p - 1] = x[p - 1] * [0.0, 1e-11, 1.0][(it // 6) % 3]
         tag = ('complex' if cplx else 'real')
         for fname in ('arcovar', 'modcovar'):
             ctx.count('search/%s/%s/%s' % (fname, tag, style))
